@@ -1424,7 +1424,7 @@ def run(ctx):
                 "TOAST-filtered / 2-3 real worker processes) and every file compared. distinct = distinct (format, dtype, depth, run, "
                 "leaves+stale digest); non-trivial = at least one tile above the start level expected")
     quick = ctx.quick
-    GLOB_DIRS[0] = not quick
+    GLOB_DIRS[0] = True
     # ---- depth-1 family enumerated by TLC itself (T = 2): all 16 leaf subsets x matrices, both row orders, stale files
     tasks = [{"name": "MCC02enum", "T": 2, "depth": 1, "expr": enum_family_expr(quick),
               "family": "each of the 4 leaves absent or one of %s" % ("3 matrices, both row orders" if quick else "all 16 matrices over {U,1} bottom-up (17^4 populations) + 3 matrices top-down")}]
